@@ -3,7 +3,7 @@
 import json, subprocess
 
 HOOK_COMMITS = ["e053b92", "db39081", "909497b", "a3ef4cc"]
-FIX_COMMITS = ["d1834d6", "696a10e", "54f6b98", "8cadbec", "1d570ec", "ada398b", "3cdf850", "86f4ed9", "cac2ae1", "749f9e1", "6852bbb", "79a1448", "10810c0", "76552f0", "f89c303", "e2f472c"]
+FIX_COMMITS = ["d1834d6", "696a10e", "54f6b98", "8cadbec", "1d570ec", "ada398b", "3cdf850", "86f4ed9", "cac2ae1", "749f9e1", "6852bbb", "79a1448", "10810c0", "76552f0", "f89c303", "e2f472c", "6328c42"]
 
 NOTE_COMMON = ("trusted base: tokio current-thread scheduler + paused clock, the simnet link, the refproto reference codec/model; "
                "interleavings explored at task-poll granularity on one thread; a clean batch is evidence, not proof")
@@ -17,6 +17,8 @@ CHECKS = {
             "deterministic simulation + fault injection; sequence-matching oracle against the sender's attempt log"),
     "C06": ("fault_enumeration", "§4 C06", "two fixed mixed chmux workloads (handshake, port opens, chunked transfers both ways, port batch, pending connect/accept/closed()/recv, idle tail with pings); every frame index x direction x fault kind (sink error, stream error, EOF, silent stall both ways, one-directional stall) is executed under N seeded schedules; oracle = both dispatchers end with Err by timeout+eps, every outstanding and fresh operation errors in bounded virtual time, no orderly end-of-stream is reported, received is a prefix of sent; points beyond the traffic exercise the idle-survival clause (hours of virtual idle time, then a transfer)",
             "deterministic simulation; exhaustive enumeration of transport cut points x fault kinds, seeded schedules per point"),
+    "C10": ("exploration", "§4 C10", "1-3 client actors issue default connect(), connect_ext(wait/no-wait, PortReq ids), cancelled connects and Connect::sent()+marker message; a listener actor draws accept / inspect+accept / accept_from / reject / reject(no_ports) / drop per request, with cancelled accepts; max_ports 2-8, connect_queue 1-4, every Cfg::ports_exhausted policy; oracle = no request pending at quiescence, client outcome equals the listener's recorded decision per request id, accepted pairs echo their own label on both legs, a request reported as sent is obtainable from the listener before later data arrives, unanswered OpenPort frames never exceed the advertised connect queue (wire monitor), exhaustion policy clause",
+            "deterministic simulation + fault injection (cancellation); decision-log oracle + wire monitor"),
     "C11": ("fault_enumeration", "§4 C11", "position enumeration: channel type (raw port, base, remote mpsc with 1-3 senders) x event (all senders dropped, receiver close, receiver drop) x position 0..6 in a stream of 6 messages x inside/outside a message, each under N seeded schedules; oracle = received == completed sends (close / sender drop) or prefix (receiver drop), end-of-stream only after everything, error classification (Closed gracefully / not gracefully, mpsc closed_reason Closed/Dropped), Sending handles acknowledged exactly the received values",
             "deterministic simulation; exhaustive enumeration of event positions, seeded schedules, reference = completed sends"),
     "C12": ("exploration", "§4 C12", "served counter/register object under every server flavour (Server, ServerRefMut, ServerShared(Mut) spawn on/off, ReqReceiver, by-value) and RFn/RFnMut/RFnOnce; 1-4 clients (clones, remote, two links), <= 14 calls with unique ids; oracle = exactly-one outcome per call checked against the callee's execution log (no foreign/duplicate/wrong-argument execution, Ok(r) => one completed execution with result r, error => at most one), &mut executions never overlap, Wing-Gong linearizability search of the client history against a sequential counter; link-cut sub-batch; self-test with a deliberately non-atomic served object",
